@@ -6,6 +6,7 @@ import (
 	"os"
 	"strings"
 	"sync"
+	"time"
 
 	"github.com/spf13/afero"
 	"github.com/yandex/pandora/core"
@@ -50,10 +51,22 @@ func HarnessC06PhoutRun() {
 		defer wgRun.Done()
 		runErr = a.Run(ctx, core.AggregatorDeps{Log: zap.NewNop()})
 	}()
+	// a pause of more than a second in the flow of samples (the aggregator's idle flush comes due)
+	// before report number gapAt, or before the end of the run
+	gapAt := -1
+	if vNondetBool("gap") {
+		gapAt = int(vConcretize(vNondetInt("gapAt", 0, int64(r))))
+	}
 	for i := 0; i < r; i++ {
+		if i == gapAt {
+			time.Sleep(1100 * time.Millisecond)
+		}
 		s := Acquire("t")
 		s.SetProtoCode(200)
 		a.Report(s)
+	}
+	if gapAt == r {
+		time.Sleep(1100 * time.Millisecond)
 	}
 	cancel() // after the last Report returned
 	wgRun.Wait()
